@@ -189,7 +189,7 @@ pub fn j_dur_mul(order: usize, a: i128, x: f64, out: &mut Local) {
             let cls = if x.abs() < f64::EPSILON && g == 0 {
                 "factor-below-epsilon-treated-as-zero".to_string()
             } else if x.fract() != 0.0 {
-                format!("fractional-factor,got={},diff={}", kind(g), if (g - lo).abs() < NS_S { "sub-second" } else { "large" })
+                format!("fractional-factor,got={},diff={}", kind(g), if g.saturating_sub(lo).unsigned_abs() < NS_S as u128 { "sub-second" } else { "large" })
             } else {
                 format!("integral-factor,got={},diff={}", kind(g), diffclass(g, lo))
             };
@@ -320,10 +320,10 @@ pub fn run(rep: &mut Report) {
     let cf: [f64; 6] = [0.0, 0.5, 1.5, 1e-3, 123.456, 1e7];
     let n6 = 6u64.pow(7);
     let stride = if q { 37 } else { 1 };
-    rep.bound("compose_f64", format!("sign x fields over {cf:?}, every {stride}th tuple of 6^7"));
-    sweep(rep, "c18.compose_f64", 3 * n6 / stride, |i, out| {
+    rep.bound("compose_f64", format!("sign {{i8::MIN,-1,0,1,i8::MAX}} x fields over {cf:?}, every {stride}th tuple of 6^7"));
+    sweep(rep, "c18.compose_f64", 5 * n6 / stride, |i, out| {
         let i = i * stride;
-        let sign = (i / n6) as i8 - 1;
+        let sign = [i8::MIN, -1, 0, 1, i8::MAX][(i / n6) as usize];
         let mut r = i % n6;
         let mut f = [0f64; 7];
         for slot in f.iter_mut() {
